@@ -7,6 +7,11 @@ mod c03;
 mod c04;
 mod c05;
 mod c06;
+mod c09;
+mod c10;
+mod c20;
+mod c22;
+mod c27;
 mod c30;
 mod common;
 mod witness;
@@ -20,6 +25,11 @@ fn main() {
         "C04" => c04::main(),
         "C05" => c05::main(),
         "C06" => c06::main(),
+        "C09" => c09::main(),
+        "C10" => c10::main(),
+        "C20" => c20::main(),
+        "C22" => c22::main(),
+        "C27" => c27::main(),
         "C30" => c30::main(),
         other => {
             println!("INCONCLUSIVE property={other} reason=vh-exec has no check for this property");
